@@ -147,7 +147,9 @@ func c13Request(rng *rand.Rand) lreq {
 		// characters which mean something else in a query string, in a path they are plain
 		"/view/a+b/c+", "/free/a+b%2Fc.txt", "/view/x%2By/z&w", "/view/semi;p=1/eq=2", "/free/at@x/col:on/c,d/$e/!f/(g)/*h",
 		// empty segments: a request target that starts with two slashes is a path, not an authority
-		"//view/view/a/b", "//free/free/x", "/view//b", "/free/a//b/", "//"}
+		"//view/view/a/b", "//free/free/x", "/view//b", "/free/a//b/", "//",
+		// characters net/url does not accept unescaped in an encoded path
+		"/view/a|b/c^d", "/free/{x}/a%2Fb/`y`", "/view/%7Bid%7D/<z>"}
 	lr := lreq{Method: []string{"GET", "POST", "PUT", "DELETE", "PATCH"}[rng.IntN(5)], Path: paths[rng.IntN(len(paths))], Headers: map[string]string{}}
 	lr.Host = []string{"svc.test", "api.example.com:8443", "10.1.2.3"}[rng.IntN(3)]
 	lr.Query = []string{"", "q=1", "q=1&multi=a&multi=b", "q=a%20b&x=%2F", "multi=z&q=1&q=2", "flag"}[rng.IntN(6)]
